@@ -39,6 +39,16 @@ claimed = {
           "capacity <= 3; the rate limiter's end-to-end self-composition (O1) runs in the thorough tier only"),
  "C15": ("6 C15", "Same buffer harness with the ghost file table under the real multibuf: request over the configured maximum (declared or discovered while reading a chunked body) yields 413 and the handler is never invoked; a response over its maximum yields an error status and none of its bytes; after ServeHTTP returns no spill file exists, for success, errors, over-limit, retries, HEAD and 204.",
           "sizes up to 8 bytes with thresholds around them; real file-system failures are not injected"),
+ "C08": ("6 C08", "Symbolic execution of the real Director closure of forward.New (modifyRequest, getURLFromRequest, HeaderRewriter.Rewrite, forwardedPort, ipv6fix, the Connection sanitiser) inside a transcription of ReverseProxy's documented outbound steps: for symbolic passHostHeader, TLS, Host with/without port, IPv4/IPv6/zoned peer, which forwarding headers an upstream proxy supplied, prior X-Forwarded-For and the subset of header names listed in Connection: hop-by-hop and Connection-named headers removed, end-to-end headers kept, X-Forwarded-Proto/-Host/-Port/-Server and X-Real-Ip describe the connection unless supplied, X-Forwarded-For ends with the peer, HTTP/1.1, Host rule; path/raw path/query preserved for a corpus of 11 targets.",
+          "the steps of net/http/httputil.ReverseProxy after Director are a transcription of its documentation (trusted); request targets are a corpus, not symbolic strings; the response direction and the wire are not claimed"),
+ "C09": ("6 C09", "Lockset analysis on the real SSA with a lock table and an access log: for each middleware instance and each pair of entry points (ServeHTTP and the administration / inspection calls, also after idle gaps) every read/write of a shared cell or map is recorded with the mutexes held and their mode; a conflicting pair of accesses without a common excluding lock is reported and replayed under `go test -race`.",
+          "2 goroutines; mutex synchronisation only; trace middleware and Wrap/Fallback setters not covered; lost-update interleavings beyond data races not modelled"),
+ "C11": ("6 C11", "Codec level: for raw, hash, AES (ttl 0 and >0) and fallback chains over a universe of server URLs with userinfo, query containing the ttl separator, port and escaped path, every pool subset and cookie age within the ttl: the cookie issued for a member finds exactly that member, non-member/malformed/expired cookies find nothing. Routing level through RoundRobin and Rebalancer ServeHTTP with real cookie parsing: no cookie -> balanced + fresh cookie, member cookie -> that member whatever the rotation state and weights, cookie of a removed server -> balanced among members + fresh cookie; downstream URL rewriting does not change the pool.",
+          "AES-GCM is replaced by an authenticated stand-in and crypto/rand by a fixed reader (listed stubs); URLs are a concrete universe"),
+ "C18": ("6 C18", "Expression semantics: the operator table and function map captured from parseExpression, all six comparisons over the three metric functions with symbolic values and constants (IEEE semantics), and/or and nesting, equal to the standard reading. Metrics: Record/ratios/Reset on the real RTMetrics with symbolic codes. Decision and effects through the C05 history harness: evaluated exactly when the check period is over, trips iff the condition is true, metrics reset once per trip, on-tripped/on-standby run once per transition.",
+          "string->AST parsing of vulcand/predicate and HDR-histogram quantiles are outside (latency is a symbolic leaf)"),
+ "C20": ("6 C20", "Assume-guarantee: contract T(m) (handler invoked once; status, headers, body, call order, flush and hijack relayed unchanged, only documented additions) and D(m) (one complete documented response, handler not invoked) checked for ProxyWriter, stream, connlimit, ratelimit, cbreaker, roundrobin (+sticky), rebalancer and buffer with a symbolic handler script; T for each middleware gives transparency of every stack by induction on depth.",
+          "trace middleware not covered (JSON encoder outside the encoder's reach); buffer modulo coalescing, no Flush, hijack before writing"),
 }
 
 checks = []
